@@ -1,14 +1,18 @@
-(** C08 — one row of the arms table generated from Server::notify,
-    Server::notify_proxys and Request::get_destinations. *)
+(** C08 — one row of the arms table generated from
+    Server::read_channel_messages_and_notify, Server::notify,
+    Server::notify_proxys and Request::get_destinations.
+
+    A [path] is one control-flow path through an arm: how many times it calls
+    [push_queue] and whether it leaves the function by [return]. *)
 From Coq Require Import List String Bool Arith.
 
-Record arm_row := mkArm {
-  a_name : string;        (* RequestType variant *)
-  wl_push : bool;         (* Server::notify has an arm for it that answers (push_queue) *)
-  wl_falls : bool;        (* ... and control reaches notify_proxys afterwards (no trailing return) *)
-  early_push : bool;      (* notify_proxys' first match answers and returns *)
-  early_falls : bool;     (* control reaches the proxies after the first match *)
-  dests : nat;            (* number of proxies get_destinations names *)
-  late_push : nat;        (* push_queue calls in the arm of notify_proxys' last match *)
-  special : bool;         (* answered in read_channel_messages_and_notify, never reaches notify *)
+Definition path : Type := (nat * bool)%type.
+
+Record arm_row := mkRow {
+  a_name : string;               (* RequestType variant *)
+  s0 : option (list path);       (* answered in read_channel_messages_and_notify, never reaches notify *)
+  s1 : list path;                (* its arm in Server::notify ([(0,false)]: the default arm) *)
+  s2 : list path;                (* its arm in the first match of notify_proxys, after dispatch *)
+  dests : nat;                   (* number of proxies get_destinations names *)
+  s4 : option (list path);       (* its arm in the last match of notify_proxys (None: the default arm) *)
 }.
